@@ -22,7 +22,7 @@ RULE = ("plan = (frame) two frames (1..8 rows quick / 1..20 thorough; key column
         "column leaves every operand snapshot unchanged and vice versa. Documented exceptions encoded: group_by (returns the "
         "receiver), copy (shallow). Non-trivial: a call whose result has ≥ 1 row and ≥ 1 column originating from an operand. "
         "Distinct = plan hash.")
-CASES = {"quick": 2000, "thorough": 5000}
+CASES = {"quick": 2500, "thorough": 6000}
 
 FRAME_METHODS = [
     "filter", "filter_out", "filter_kv", "slice", "slice_off", "head", "tail", "drop_na", "sample", "unique", "sort",
@@ -52,7 +52,7 @@ def _frame(draw, n, tag):
 
 @st.composite
 def _plan(draw, max_rows):
-    if draw(st.integers(0, 3)) == 0:
+    if draw(st.integers(0, 2)) == 0:
         kind = draw(st.sampled_from(ANY_KINDS + ["y", "oi"]))
         n = draw(st.integers(0, max_rows))
         return {"target": "vector", "kind": kind, "vals": draw(gen.values(kind, n)),
